@@ -1587,7 +1587,10 @@ def cmd_selftest(args):
     if getattr(args, "mutants", False):
         sd = os.path.join(VERIF, "seeded")
         scratch = os.path.join(os.environ.get("TMPDIR", "/tmp"), "verif-selftest-%d" % os.getpid())
+        only = os.environ.get("VERIF_SELFTEST_ONLY")       # optional regular expression on the seeded directory names
         for name in sorted(os.listdir(sd)) if os.path.isdir(sd) else []:
+            if only and not re.search(only, name):
+                continue
             meta_p = os.path.join(sd, name, "meta.json")
             if not os.path.exists(meta_p):
                 continue
@@ -1599,15 +1602,13 @@ def cmd_selftest(args):
             if p.returncode != 0:
                 log("selftest: %s: patch does not apply to the current tree (%s)" % (name, p.stdout.strip()[:100]))
                 continue
-            hit = False
+            hits, misses = [], []
             for pid in meta.get("caught_by", [meta["property"]]):
                 e = dict(os.environ, VERIF_REPO=scratch)
                 q = subprocess.run([sys.executable, os.path.join(VERIF, "verif.py"), "check", pid, "--tier", "quick", "--no-evidence"], stdout=subprocess.PIPE, stderr=subprocess.STDOUT, text=True, env=e)
-                if q.returncode == 1 and "VIOLATION property=" + pid in q.stdout:
-                    hit = True
-                    break
-            log("selftest: seeded change %s (%s): %s" % (name, meta["property"], "detected by " + pid if hit else "NOT DETECTED"))
-            ok &= hit
+                (hits if q.returncode == 1 and "VIOLATION property=" + pid in q.stdout else misses).append(pid)
+            log("selftest: seeded change %s (%s): detected by %s%s" % (name, meta["property"], ",".join(hits) or "NOTHING", (" ; claimed but NOT detected by " + ",".join(misses)) if misses else ""))
+            ok &= bool(hits) and not misses
             shutil.rmtree(scratch, ignore_errors=True)
     log("selftest: " + ("ok" if ok else "FAILED"))
     return 0 if ok else 1
